@@ -918,6 +918,8 @@ from mlmverif.selfcheck import B, OK  # noqa: E402
 _T = 'chainables/transform.py'
 _O = 'chainables/orchestrate.py'
 VARIANTS = [
+    OK('shard-iterator-switches-through-locals', 'chainables/orchestrate.py',
+       "          with_result=with_batch_output,\n          with_agg_state=calculate_agg_result,", "          with_result=bool(with_batch_output),\n          with_agg_state=bool(calculate_agg_result),"),
     B('shard-iterator-switches-crossed', 'chainables/orchestrate.py',
       "          with_result=with_batch_output,\n          with_agg_state=calculate_agg_result,", "          with_result=calculate_agg_result,\n          with_agg_state=with_batch_output,", 'R-C16-25'),
     B('aggregating-middle-stage-drops-its-outputs', 'chainables/orchestrate.py',
